@@ -651,6 +651,140 @@ theorem C04_dest_silent_peer_idle_after_2N (cfg : LocalCfg) (rc : RemoteCfg) (re
   · simp [h3, hconf1, cancelledSt, cancelP, bump, bumpP]
   · rw [h3]; exact hdend
 
+/-! ### the cancellation exchange after the limit fault (sender) -/
+
+/-- the state after the sender's limit fault cancelled the transaction: EOF condition set, procedure
+restarted, one EOF (cancel) PDU queued, EOF-Sent announced -/
+def cancelledSrc (s : Source.SrcSt) (cond now ms : Nat) (eof : Pdu) (ind : List Ind) : Source.SrcSt :=
+  { s with p := { s.p with condCodeEof := some cond, ackTimer := some ⟨now, ms⟩, ackCounter := 0 },
+           step := .WAITING_FOR_EOF_ACK, queue := s.queue ++ [eof], numReady := s.numReady + 1,
+           inds := s.inds ++ ind }
+
+/-- a cancelling fault in acknowledged mode, no cancellation exchange in progress yet: exactly one EOF PDU
+with the fault's condition, the progress as size and the checksum of that prefix; the positive ACK
+procedure starts again from zero; one cancellation callback -/
+theorem C04_source_limit_fault_cancels (env : Source.Env) (s : Source.SrcSt) (rc : RemoteCfg)
+    (req : Source.PutReq) (src : String) (F cks : List UInt8) (cond : Nat) (tid : Tid)
+    (hb : s.state = .busy) (hmode : s.p.conf.mode = .ack)
+    (hnc : Source.cancelInProgress s.p = none) (hrc : s.p.remoteCfg = some rc)
+    (hreq : s.putReq = some req) (hsrc : req.src = some src) (hmo : s.p.metadataOnly = false)
+    (hfile : s.fs.get src = some (.file F)) (hnull : Checksum.CksType.ofNat rc.cks ≠ .null)
+    (hcks : Checksum.calcChecksum (Checksum.CksType.ofNat rc.cks) F s.p.progress s.p.segmentLen = .ok cks)
+    (hlen : cks.length = 4) (htid : s.p.tid = some tid)
+    (hfh : s.faults.lookup cond = some fhCancel) :
+    Source.declareFault env cond s =
+      .ok () { cancelledSrc s cond env.now rc.ackMs (Source.mkEof s.p.conf cond cks s.p.progress)
+                 (if env.cfg.indEofSent then [Ind.eofSent tid] else []) with
+               flts := s.flts ++ [⟨fhCancel, tid, cond, s.p.progress⟩] } := by
+  have hc : Fs.calcChecksum s.fs (Checksum.CksType.ofNat rc.cks) src s.p.progress s.p.segmentLen = .ok cks := by
+    simp [Fs.calcChecksum, hnull, hfile, hcks]
+  have hni : (s.state = CfdpState.idle) = False := by simp [hb]
+  cases hi : env.cfg.indEofSent <;>
+  · msimp [Source.declareFault, htid, hfh, Source.noticeOfCancellation, hnc, Source.getP,
+      Source.modP, Source.checksumCalculation, hreq, hsrc, hmo, hrc, hc, Source.prepareEofPdu, hlen,
+      Source.addPacket, Source.emitInd, hi, Source.handleEofSent, Source.transmissionMode, hmode, hni,
+      Source.startPositiveAckProcedure, cancelledSrc]
+
+
+/-- **A silent peer cannot hang the sender** (default fault handlers: Positive ACK Limit Reached cancels).
+The EOF PDU awaits its ACK with limit `N`; nothing ever arrives.  `N-1` expiries re-send the EOF PDU
+(identical copies); the `N`-th declares the fault, which cancels: one EOF PDU with condition Positive ACK
+Limit Reached — same size field and same checksum, the bytes sent have not changed — and the procedure
+starts again; `N-1` further expiries re-send that PDU (identical copies); the `N`-th declares the fault
+again, which now abandons: the handler is idle, exactly `2·(N-1) + 1` EOF PDUs after the original one
+were ever sent, and none after that. -/
+theorem C04_source_silent_peer_idle_after_2N (cfg : LocalCfg) (rc : RemoteCfg) (req : Source.PutReq)
+    (src : String) (F cks : List UInt8) (tid : Tid)
+    (times1 : List Nat) (last1 : Nat) (times2 : List Nat) (last2 : Nat) (s : Source.SrcSt) (t : Timer)
+    (ht : s.p.ackTimer = some t) (hrc : s.p.remoteCfg = some rc) (hreq : s.putReq = some req)
+    (hsrc : req.src = some src) (hmo : s.p.metadataOnly = false) (hfile : s.fs.get src = some (.file F))
+    (hnull : Checksum.CksType.ofNat rc.cks ≠ .null)
+    (hcks : Checksum.calcChecksum (Checksum.CksType.ofNat rc.cks) F s.p.progress s.p.segmentLen = .ok cks)
+    (hlen : cks.length = 4) (hcond : s.p.condCodeEof = some ccNoError) (htid : s.p.tid = some tid)
+    (hq : s.numReady = 0) (hqq : s.queue = []) (hc0 : s.p.ackCounter = 0)
+    (hb : s.state = .busy) (hmode : s.p.conf.mode = .ack)
+    (hfh : s.faults.lookup ccPositiveAckLimit = some fhCancel)
+    (hexp1 : Expiring t.timeout t.start (times1 ++ [last1])) (hlen1 : times1.length + 1 = rc.ackLim)
+    (hexp2 : Expiring rc.ackMs last1 (times2 ++ [last2])) (hlen2 : times2.length + 1 = rc.ackLim) :
+    ∃ sk s1 send,
+      -- phase 1: N-1 re-sends of the EOF PDU, no fault
+      srcExpiries cfg times1 s [] =
+        (sk, List.replicate times1.length (Source.mkEof s.p.conf ccNoError cks s.p.progress)) ∧
+      -- N-th expiry: fault, cancel, EOF (cancel) queued, procedure restarted
+      Source.handlePositiveAckProcedures ⟨cfg, last1⟩ sk = .ok () s1 ∧
+      s1.queue = [Source.mkEof s.p.conf ccPositiveAckLimit cks s.p.progress] ∧
+      s1.flts = s.flts ++ [⟨fhCancel, tid, ccPositiveAckLimit, s.p.progress⟩] ∧
+      -- phase 2: N-1 re-sends of the EOF (cancel) PDU, then abandon
+      (srcExpiries cfg times2 { s1 with queue := [], numReady := 0 } []).2 =
+        List.replicate times2.length (Source.mkEof s.p.conf ccPositiveAckLimit cks s.p.progress) ∧
+      Source.handlePositiveAckProcedures ⟨cfg, last2⟩
+        (srcExpiries cfg times2 { s1 with queue := [], numReady := 0 } []).1 = .ok () send ∧
+      send.state = .idle ∧ send.step = .IDLE ∧ send.queue = [] ∧
+      send.flts = s1.flts ++ [⟨fhAbandon, tid, ccPositiveAckLimit, s.p.progress⟩] := by
+  obtain ⟨h1, h2⟩ := C04_source_limit_exactly_at_Nth cfg rc req src F cks ccNoError tid times1 last1 s t ht hrc hreq
+    hsrc hmo hfile hnull hcks hlen hcond htid hq hqq hexp1 (by omega)
+  -- the N-th expiry cancels
+  have hF := C04_source_limit_fault_cancels ⟨cfg, last1⟩
+    (bumpSrc s (lastOr t.start times1) t.timeout (s.p.ackCounter + times1.length)
+      (s.inds ++ repeatList (if cfg.indEofSent then [Ind.eofSent tid] else []) times1.length))
+    rc req src F cks ccPositiveAckLimit tid (by simpa [bumpSrc] using hb) (by simpa [bumpSrc, bumpSrcP] using hmode)
+    (by simp [Source.cancelInProgress, bumpSrc, bumpSrcP, hcond, ccNoError])
+    (by simpa [bumpSrc, bumpSrcP] using hrc) (by simpa [bumpSrc] using hreq) hsrc
+    (by simpa [bumpSrc, bumpSrcP] using hmo) (by simpa [bumpSrc] using hfile) hnull
+    (by simpa [bumpSrc, bumpSrcP] using hcks) hlen (by simpa [bumpSrc, bumpSrcP] using htid)
+    (by simpa [bumpSrc] using hfh)
+  rw [hF] at h2
+  -- name the state after the cancellation and collect what phase 2 needs to know about it
+  obtain ⟨s1, hs1⟩ : ∃ s1 : Source.SrcSt, s1 = { cancelledSrc
+      (bumpSrc s (lastOr t.start times1) t.timeout (s.p.ackCounter + times1.length)
+        (s.inds ++ repeatList (if cfg.indEofSent then [Ind.eofSent tid] else []) times1.length))
+      ccPositiveAckLimit last1 rc.ackMs (Source.mkEof s.p.conf ccPositiveAckLimit cks s.p.progress)
+      (if cfg.indEofSent then [Ind.eofSent tid] else []) with
+      flts := s.flts ++ [⟨fhCancel, tid, ccPositiveAckLimit, s.p.progress⟩] } := ⟨_, rfl⟩
+  have h2' : Source.handlePositiveAckProcedures ⟨cfg, last1⟩
+      (bumpSrc s (lastOr t.start times1) t.timeout (s.p.ackCounter + times1.length)
+        (s.inds ++ repeatList (if cfg.indEofSent then [Ind.eofSent tid] else []) times1.length)) = .ok () s1 := by
+    rw [h2, hs1]; rfl
+  have q1 : s1.queue = [Source.mkEof s.p.conf ccPositiveAckLimit cks s.p.progress] := by
+    rw [hs1]; simp [cancelledSrc, bumpSrc]
+  have f1 : s1.flts = s.flts ++ [⟨fhCancel, tid, ccPositiveAckLimit, s.p.progress⟩] := by rw [hs1]
+  let s1d : Source.SrcSt := { s1 with queue := [], numReady := 0 }
+  have e_t : s1d.p.ackTimer = some ⟨last1, rc.ackMs⟩ := by simp [s1d, hs1, cancelledSrc]
+  have e_rc : s1d.p.remoteCfg = some rc := by simpa [s1d, hs1, cancelledSrc, bumpSrc, bumpSrcP] using hrc
+  have e_req : s1d.putReq = some req := by simpa [s1d, hs1, cancelledSrc, bumpSrc] using hreq
+  have e_mo : s1d.p.metadataOnly = false := by simpa [s1d, hs1, cancelledSrc, bumpSrc, bumpSrcP] using hmo
+  have e_file : s1d.fs.get src = some (.file F) := by simpa [s1d, hs1, cancelledSrc, bumpSrc] using hfile
+  have e_prog : s1d.p.progress = s.p.progress := by simp [s1d, hs1, cancelledSrc, bumpSrc, bumpSrcP]
+  have e_seg : s1d.p.segmentLen = s.p.segmentLen := by simp [s1d, hs1, cancelledSrc, bumpSrc, bumpSrcP]
+  have e_conf : s1d.p.conf = s.p.conf := by simp [s1d, hs1, cancelledSrc, bumpSrc, bumpSrcP]
+  have e_cond : s1d.p.condCodeEof = some ccPositiveAckLimit := by simp [s1d, hs1, cancelledSrc]
+  have e_tid : s1d.p.tid = some tid := by simpa [s1d, hs1, cancelledSrc, bumpSrc, bumpSrcP] using htid
+  have e_cnt : s1d.p.ackCounter = 0 := by simp [s1d, hs1, cancelledSrc]
+  have e_fh : s1d.faults.lookup ccPositiveAckLimit = some fhCancel := by
+    simpa [s1d, hs1, cancelledSrc, bumpSrc] using hfh
+  have e_flts : s1d.flts = s1.flts := rfl
+  obtain ⟨h3, h4⟩ := C04_source_limit_exactly_at_Nth cfg rc req src F cks ccPositiveAckLimit tid times2 last2 s1d
+    ⟨last1, rc.ackMs⟩ e_t e_rc e_req hsrc e_mo e_file hnull (by rw [e_prog, e_seg]; exact hcks) hlen e_cond e_tid
+    rfl rfl hexp2 (by rw [e_cnt]; omega)
+  have h5 := C14.C14_source_fault_in_cancel_exchange ⟨cfg, last2⟩
+    (bumpSrc s1d (lastOr last1 times2) rc.ackMs (s1d.p.ackCounter + times2.length)
+      (s1d.inds ++ repeatList (if cfg.indEofSent then [Ind.eofSent tid] else []) times2.length))
+    ccPositiveAckLimit ccPositiveAckLimit tid (by simpa [bumpSrc, bumpSrcP] using e_tid)
+    (by simpa [bumpSrc] using e_fh)
+    (by simp [Source.cancelInProgress, bumpSrc, bumpSrcP, e_cond, ccPositiveAckLimit, ccNoError])
+  rw [h5] at h4
+  obtain ⟨send, hsend, a1, a2, a3, a4⟩ : ∃ send, Source.handlePositiveAckProcedures ⟨cfg, last2⟩
+      (bumpSrc s1d (lastOr last1 times2) rc.ackMs (s1d.p.ackCounter + times2.length)
+        (s1d.inds ++ repeatList (if cfg.indEofSent then [Ind.eofSent tid] else []) times2.length)) = .ok () send ∧
+      send.state = .idle ∧ send.step = .IDLE ∧ send.queue = [] ∧
+      send.flts = s1.flts ++ [⟨fhAbandon, tid, ccPositiveAckLimit, s.p.progress⟩] :=
+    ⟨_, h4, rfl, rfl, rfl, by simp [bumpSrc, bumpSrcP, e_flts, e_prog]⟩
+  refine ⟨_, s1, send, h1, h2', q1, f1, ?_, ?_, a1, a2, a3, a4⟩
+  · show (srcExpiries cfg times2 s1d []).2 = _
+    rw [h3, e_conf, e_prog]
+  · show Source.handlePositiveAckProcedures ⟨cfg, last2⟩ (srcExpiries cfg times2 s1d []).1 = _
+    rw [h3]; exact hsend
+
 /-! ## The retry counters never reach their limits — every call sequence -/
 
 inductive SCall where
